@@ -133,3 +133,22 @@ def check(ctx):
             ctx.add("4.fail-vacant-inserts", "PAIR", bool(ins) and any(b.path(vac, [c.bb]) is not None for c in ins), "under Fail a fresh key is inserted", sites=[c.where() for c in ins], site_key="vac")
         ow = [c for c in b.calls_to("alloc::collections::btree::map::BTreeMap::insert") if c.bb in arms.get("Overwrite", set())]
         ctx.expect_sites("4.overwrite-inserts", ow, exactly=1, what="btree.insert under ConflictPolicy::Overwrite")
+
+    # -- 5. direction of the merge: the incoming (child) operations are written over the pending (parent) ones --
+    with ctx.clause("5.merge-direction"):
+        b5 = F.unit(f"<{IMT} as {T}::Modifiable>::commit_changes").root
+        sw5 = [c for c in b5.calls if c.bb in b5.live and c.path.startswith("core::mem::") and c.name in ("swap", "replace", "take")]
+        ctx.expect_sites("5.no-swap-of-the-two-sides", sw5, exactly=0,
+                         what="mem::swap / replace / take inside commit_changes (exchanging the pending map with the incoming one makes the parent's older operations win over the child's newer ones)")
+        o5 = Origins(b5, 2)
+        ow5 = [c for c in b5.calls_to("alloc::collections::btree::map::BTreeMap::insert") if c.bb in b5.live]
+        for i, c in enumerate(ow5):
+            recv = o5.atoms(c.args[0])
+            val = o5.atoms(c.args[2]) | o5.atoms(c.args[1])
+            ctx.add(f"5.insert-{i}-target-is-pending-map", "PROV", atom_match(recv, f"field:{IMT}.changes") and not atom_match(recv, "param:2"),
+                    "the map written to is this transaction's pending change set", sites=[c.where()], site_key=f"t{i}", witness={"atoms": sorted(map(str, recv))[:10]})
+            ctx.add(f"5.insert-{i}-source-is-incoming-changes", "PROV", atom_match(val, "param:2") and not atom_match(val, f"field:{IMT}.changes"),
+                    "the operation written is one of the incoming changes", sites=[c.where()], site_key=f"s{i}", witness={"atoms": sorted(map(str, val))[:10]})
+        loops5 = [c for c in b5.calls_to("core::iter::traits::iterator::Iterator::next") if c.bb in b5.live]
+        ctx.add("5.iterates-incoming-changes", "PROV", bool(loops5) and all(atom_match(Origins(b5, 3).atoms(c.args[0]), "param:2") for c in loops5),
+                "both loops (columns, keys) iterate the incoming change set", sites=[c.where() for c in loops5], site_key="loops")
